@@ -325,3 +325,31 @@ pub trait TupleVisitor {
     type Out;
     fn visit<B: TupleB>(self) -> Self::Out;
 }
+
+
+// ---- serde forms of the handled component types (a number each); every decoded value is counted ----
+thread_local! {
+    pub static DECODED: RefCell<u64> = RefCell::new(0);
+}
+pub fn take_decoded() -> u64 {
+    DECODED.with(|d| std::mem::take(&mut *d.borrow_mut()))
+}
+macro_rules! comp_serde {
+    ($name:ident, $ser:ident, $ty:ty) => {
+        impl serde::Serialize for $name {
+            fn serialize<S: serde::Serializer>(&self, s: S) -> Result<S::Ok, S::Error> {
+                s.$ser(self.val() as $ty)
+            }
+        }
+        impl<'de> serde::Deserialize<'de> for $name {
+            fn deserialize<D: serde::Deserializer<'de>>(d: D) -> Result<Self, D::Error> {
+                let v = <$ty as serde::Deserialize>::deserialize(d)?;
+                DECODED.with(|c| *c.borrow_mut() += 1);
+                Ok(<$name as Comp>::new(v as u64))
+            }
+        }
+    };
+}
+comp_serde!(C1, serialize_u32, u32);
+comp_serde!(C2, serialize_u64, u64);
+comp_serde!(C3, serialize_u64, u64);
